@@ -106,3 +106,18 @@ func VH_C07_nia2() {
 	vrt.Assert(err == nil && len(mac) == 4, "NIA2 returns a 4-octet MAC")
 	vrt.Assert(c07mac(mac) == ref.EIA2(ik, count, bearer, dir, msg), "NIA2 = 128-EIA2 (AES-CMAC over COUNT|BEARER|DIR|0^26|msg, 32 msb)")
 }
+
+// ---- the same statements with the keystream generators abstracted as uninterpreted functions of (key, IV) per
+// word (justified by C06: generators equal the standard ones, word i independent of the number of words requested).
+// A deviation in IV construction, word count, padding or masking has a short model here.
+
+func c07abstract() {
+	vrt.UFSlice("github.com/free5gc/nas/security/snow3g.GetKeyStream", "SNOWKS", 2)
+	vrt.UFSlice("github.com/free5gc/nas/zz_verifref.SnowKeystream", "SNOWKS", 2)
+	vrt.UFSlice("github.com/free5gc/nas/security/zuc.Zuc", "ZUCKS", 2)
+	vrt.UFSlice("github.com/free5gc/nas/zz_verifref.ZUCKeystream", "ZUCKS", 2)
+}
+
+func VH_C07_abs_nasmac()    { c07abstract(); VH_C07_nasmac() }
+func VH_C07_abs_nia1_bits() { c07abstract(); VH_C07_nia1_bits() }
+func VH_C07_abs_nia3_bits() { c07abstract(); VH_C07_nia3_bits() }
